@@ -166,7 +166,7 @@ def correspondence(ctx):
         texts.append(AC.HEADER_D + "Definition cases : list (rule * tbl * list val * val * prog * prog) := "
                      + accir._l(AC.step_case(s) for s, _ in sh) + ".\n"
                      "Eval vm_compute in failing (fun c => match c with (r, t, fr, tg, b, a) => step_ok r t fr tg b a end) cases.\n"
-                     "Eval vm_compute in failing (fun c => match c with (r, t, fr, tg, b, a) => match r with RSimplify => simplify_cert t fr tg b a | _ => true end end) cases.\n")
+                     "Eval vm_compute in failing (fun c => match c with (r, t, fr, tg, b, a) => match r with RSimplify => simplify_cert t fr tg b a && wf_prog (tfun t) b | _ => true end end) cases.\n")
     res = vlib.coq_eval_many("c01l1_", texts, timeout=900)
     for sh, (ok, out) in zip(shards, res):
         lists = vlib.parse_all_eval_lists(out)
